@@ -504,4 +504,34 @@ def check_get_or_add_flag(ctx, F, rule="E-VNM.found"):
     ctx.ob(rule, rule, ok and not bad, "%s (%s): %s" % (F.nice(fid), F.where(fid), "; ".join(sorted(set(bad))) if bad else
                                                       "found is true exactly on the present-name arm (%d returns)" % len(tuples) if ok else
                                                       "return tuples / OccupiedEntry::get not found"))
-    return 1
+    # a new name is entered (VacantEntry::insert + names.push) unless the variable numbers are exhausted: both calls lie on the
+    # `false` edge of the one comparison of the next number with VarNo::MAX
+    ins = [i for i, t in B.calls() if re.search(r"VacantEntry<.*>::insert$|VacantEntry::<.*>::insert$", cfg.callee_name(t) or "")]
+    push = [i for i, t in B.calls() if (cfg.callee_name(t) or "").endswith("::push") and not m["blocks"][i]["c"]]
+    tests = []
+    for i in sorted(B.reach):
+        b = m["blocks"][i]
+        t = b["t"]
+        if t["k"] != "switch" or b["c"]:
+            continue
+        d = cfg.op_place(t["d"])
+        for s_ in b["s"]:
+            rv = s_.get("rv") or {}
+            if s_.get("lhs") == d and rv.get("k") == "bin" and rv.get("o") in ("Eq", "Ne") and \
+                    any(cfg.const_int(rv.get(x)) == 2 ** 32 - 1 for x in ("a", "b")):
+                zero = [blk for v, blk in t["t"] if int(v) == 0]
+                if len(zero) == 1:
+                    eq_edge, ne_edge = (t["o"], zero[0]) if rv["o"] == "Eq" else (zero[0], t["o"])
+                    tests.append((i, eq_edge, ne_edge))
+    ok2 = len(tests) == 1 and bool(ins) and bool(push)
+    if ok2:
+        sw, eq_edge, ne_edge = tests[0]
+        r_ne = B.reachable_from(ne_edge, avoid=(sw,))
+        r_eq = B.reachable_from(eq_edge, avoid=(sw,))
+        later = [i for i in push if B.dominates(sw, i)]        # (the unnamed-variable arm pushes before the test)
+        ok2 = bool(later) and all(i in r_ne and i not in r_eq for i in ins + later)
+    ctx.ob(rule, rule + ":enter", ok2, "%s (%s): %s" % (F.nice(fid), F.where(fid),
+           "a new name is entered in the index and the name list exactly when the next number is not VarNo::MAX" if ok2 else
+           "the insertion of a new name (VacantEntry::insert, names.push) does not sit on the `next number != VarNo::MAX` edge: new names "
+           "are not entered (or entered past the last variable number)"))
+    return 2
